@@ -3431,4 +3431,17 @@ func init() {
 	share([]string{"C01", "C03", "C05", "C06", "C15"}, registry["C14"].Meta.Rules["C14.19"], "C14.19", func(c *Ctx, r *Result, id string) { widthArmRule(c, r, id, 3) })
 	share([]string{"C04", "C10", "C16"}, registry["C03"].Meta.Rules["C03.21"], "C03.21", func(c *Ctx, r *Result, id string) { typedMessageWriteRule(c, r, id, 2) })
 	share([]string{"C05", "C11"}, registry["C06"].Meta.Rules["C06.2"], "C06.2", func(c *Ctx, r *Result, id string) { aliasRule(c, r, "C06", c06padding, "C06.2", id) })
+	// module-wide rules of rounds 7 and 8 that so far ran under one or two properties only
+	share([]string{"C01", "C05", "C09"}, registry["C13"].Meta.Rules["C13.14"], "C13.14", func(c *Ctx, r *Result, id string) { dimensionIndexRule(c, r, id, 10) })
+	share([]string{"C02", "C03", "C05"}, registry["C11"].Meta.Rules["C11.21"], "C11.21", func(c *Ctx, r *Result, id string) { shadowedCursorRule(c, r, id, 0) })
+	share([]string{"C01", "C02", "C06", "C10", "C13"}, registry["C09"].Meta.Rules["C09.18"], "C09.18", func(c *Ctx, r *Result, id string) {
+		readButNeverWrittenRule(c, r, id, map[string]bool{"hdf5": true}, 20)
+	})
+	share([]string{"C01", "C06", "C13"}, registry["C09"].Meta.Rules["C09.17"], "C09.17", func(c *Ctx, r *Result, id string) { clampRule(c, r, id, 5) })
+	share([]string{"C02", "C03", "C11"}, registry["C06"].Meta.Rules["C06.18"], "C06.18", func(c *Ctx, r *Result, id string) { searchResultTestRule(c, r, id, 1) })
+	share([]string{"C02", "C11"}, registry["C06"].Meta.Rules["C06.21"], "C06.21", func(c *Ctx, r *Result, id string) { tailTrimRule(c, r, id, 2) })
+	share([]string{"C02", "C03", "C04"}, registry["C16"].Meta.Rules["C16.11"], "C16.11", func(c *Ctx, r *Result, id string) { sentinelIndexRule(c, r, id, 2) })
+	share([]string{"C01", "C05", "C06"}, registry["C11"].Meta.Rules["C11.19"], "C11.19", func(c *Ctx, r *Result, id string) { byteOrderParamRule(c, r, id, 5) })
+	share([]string{"C02", "C06"}, registry["C11"].Meta.Rules["C11.20"], "C11.20", func(c *Ctx, r *Result, id string) { declaredExtentRule(c, r, id, 2) })
+	share([]string{"C02", "C03", "C10", "C15"}, registry["C14"].Meta.Rules["C14.16"], "C14.16", func(c *Ctx, r *Result, id string) { lostFieldStoreRule(c, r, id) })
 }
